@@ -145,7 +145,10 @@ def failing_inputs():
             ("fail-truncated-call", b"cvp_sink\nhit\n(K\x01t"), ("fail-garbage", b"\xfe\xfd\xfc"),
             ("fail-empty", b""), ("fail-nostop", b"K\x01"), ("fail-stack-underflow", b"0."),
             ("fail-append-nonlist", b"cvp_sink\nK\n)\x81K\x01a."),
-            ("fail-unsupported-then-call", b"cvp_sink\nhit\n(\x96" + (1).to_bytes(8, "little") + b"xtR.")]
+            ("fail-unsupported-then-call", b"cvp_sink\nhit\n(\x96" + (1).to_bytes(8, "little") + b"xtR.")] + [
+        # bytes the opcode reader rejects after consuming them, with a complete flagged pickle right behind
+        (f"fail-junk-prefix-{i}", pre + b"cvp_sink\nhit\n(K\x01tR.")
+        for i, pre in enumerate((b"\xff", b"\x00", b"\n", b" ", b"\x00\x00\x00", b"Sabc\n", b"I1x\n", b"\x80"))]
 
 
 STREAMS = ["bytesio", "bytesio@k", "file", "buffered", "pipe", "wrapper"]
